@@ -358,7 +358,7 @@ impl<T: DeserializeInner> DeserializeInner for Option<T> {
         match tag {
             0 => Ok(None),
             1 => Ok(Some(T::_deserialize_eps_inner(backend)?)),
-            _ => Err(deser::Error::InvalidTag(backend.data[0] as usize)),
+            _ => Err(deser::Error::InvalidTag(tag as usize)),
         }
     }
 }
